@@ -937,7 +937,7 @@ def generate(ctx):
     logging.getLogger("liesel").setLevel(logging.ERROR)
     warnings.simplefilter("ignore")
     rnd = random.Random(ctx.seed)
-    ncases = 280 if ctx.quick else 2800
+    ncases = 280 if ctx.quick else 6000
     cases = corpus_cases()
     flavours = ["mixed", "vars", "transient", "vars", "mixed", "plain"]
     i = 0
@@ -982,7 +982,7 @@ def generate(ctx):
                 if ob.get("reput"):
                     ctx.hist("update.get_put")
         distinct.add(json.dumps([c["kinds"], c["ins"], c["pre"], c["steps"]]))
-    flat = gen_flat(rnd, 150 if ctx.quick else 1500)
+    flat = gen_flat(rnd, 150 if ctx.quick else 3000)
     for c in flat:
         ctx.hist("scenario." + c["scenario"])
         ctx.hist("flat." + c["op"][0] + (".raises" if (c.get("after", 0) is None or c.get("vals", 0) is None) else ""))
@@ -1202,7 +1202,7 @@ def search(ctx, disagreeing):
     disagreeing models, then a widened random search"""
     rnd = random.Random(ctx.seed + 1)
     found = []
-    t_end = 90 if ctx.quick else 300
+    t_end = float(__import__('os').environ.get('LV_C03_SEARCH_S', 90 if ctx.quick else 300))
     t0 = time.time()
     for c in disagreeing:
         if c.get("kind") != "graph" or c.get("anomaly"):
